@@ -81,6 +81,8 @@ func GenOp(t *rapid.T, p Profile) Op {
 		return Op{Kind: "idle", Arg: rapid.IntRange(0, 1).Draw(t, "wait")}
 	case k < p.IdlePct+p.RedelivPct:
 		return Op{Kind: "redeliver", Pick: rapid.IntRange(0, 1<<16).Draw(t, "pick")}
+	case p.RedelivPct > 0 && p.Forks && k < p.IdlePct+p.RedelivPct+2:
+		return Op{Kind: "redeliver_invalid", Pick: rapid.IntRange(0, 1<<16).Draw(t, "pick")}
 	case p.Reopen && k < p.IdlePct+p.RedelivPct+3:
 		return Op{Kind: "reopen"}
 	case p.Forks && k < p.IdlePct+p.RedelivPct+3+12:
